@@ -633,7 +633,7 @@ static void emit_state (DBusMessage *m, int ret)
 
 static int apply_edit (DBusMessage *m, const char *a);
 
-static void cmd_edit (int argc, char **argv)
+static void cmd_edit_common (int argc, char **argv, int blind)
 {
   size_t n; unsigned char *buf; DBusMessageLoader *l; DBusMessage *m; int i;
   if (argc < 2 || !(buf = unhex (argv[1], &n))) { ob_puts (&out, "ERR badargs"); return; }
@@ -643,16 +643,30 @@ static void cmd_edit (int argc, char **argv)
   m = _dbus_message_loader_pop_message (l);
   if (!m) { ob_puts (&out, "ERR start-message-rejected"); _dbus_message_loader_unref (l); free (buf); return; }
   ob_puts (&out, "OK");
-  emit_state (m, 1);
-  for (i = 2; i < argc; i++)
+  if (blind)
     {
-      char *a = argv[i]; int ret = apply_edit (m, a);
+      /* EDITB: no accessor, iterator or marshal call touches the message before or between the edits (inspecting a
+       * message converts it to the native byte order and fills the field cache); only the final state is emitted */
+      int ret = 1;
+      for (i = 2; i < argc; i++) ret = apply_edit (m, argv[i]);
       emit_state (m, ret);
+    }
+  else
+    {
+      emit_state (m, 1);
+      for (i = 2; i < argc; i++)
+        {
+          char *a = argv[i]; int ret = apply_edit (m, a);
+          emit_state (m, ret);
+        }
     }
   dbus_message_unref (m);
   _dbus_message_loader_unref (l);
   free (buf);
 }
+
+static void cmd_edit (int argc, char **argv) { cmd_edit_common (argc, argv, 0); }
+static void cmd_editb (int argc, char **argv) { cmd_edit_common (argc, argv, 1); }
 
 /* ------------------------------------------------------------------ */
 /* VALIDATE / VALENUM                                                   */
@@ -1419,6 +1433,7 @@ int main (int argc, char **argv)
       else if (!strcmp (args[0], "LOADERCUTS")) cmd_loadercuts (n, args);
       else if (!strcmp (args[0], "BUILD")) cmd_build (n, args);
       else if (!strcmp (args[0], "EDIT")) cmd_edit (n, args);
+      else if (!strcmp (args[0], "EDITB")) cmd_editb (n, args);
       else if (!strcmp (args[0], "VALIDATE")) cmd_validate (n, args);
       else if (!strcmp (args[0], "OOMEDIT")) cmd_oomedit (n, args);
       else if (!strcmp (args[0], "OOMCOPY")) cmd_oomcopy (n, args);
